@@ -11,7 +11,7 @@ from TidalPy.exceptions import UnknownModelError
 log = get_logger(__name__)
 
 # Import cythonized functions
-from libc.math cimport NAN, isnan, fabs
+from libc.math cimport NAN, isnan, isinf, fabs
 from cpython.mem cimport PyMem_Free
 from CyRK.utils.utils cimport allocate_mem, reallocate_mem
 
@@ -265,6 +265,11 @@ cdef RadialSolverSolution cf_radial_solver(
     cdef double bulk_density_to_use = NAN
     cdef double frequency_to_use = NAN
     if nondimensionalize:
+        # The conversion factors are built from the planet's radius and bulk density. A non-finite value would turn the
+        #  caller's arrays into NaNs that can not be restored: leave before anything is scaled.
+        if isnan(radius_planet) or isinf(radius_planet) or isnan(planet_bulk_density) or isinf(planet_bulk_density):
+            raise ValueError('NaNs encountered after non-dimensionalize call.')
+
         cf_non_dimensionalize_physicals(
             total_slices,
             frequency,
